@@ -105,6 +105,10 @@ class Check:
         from symnum import solver as _Z
         _Z.CROSS.update(enabled=(tier == "thorough" or os.environ.get("VERIF_CROSSCHECK") == "1"), seen=0, sampled=0, agree=0, unknown=0,
                         disagree=[], seconds=0.0)
+        # wall-clock budget of the whole check: once it is spent every further solver query answers `unknown` at once, so the run ends
+        # as inconclusive (exit 3) instead of grinding on (seen on a tree where an added guard made every branch undecidable)
+        budget = float(os.environ.get("VERIF_BUDGET_S", 1500 if tier == "quick" else 5 * 3600))
+        _Z.BUDGET.update(deadline=self.t0 + budget, seconds=budget, skipped=0)
         self.obligations = []      # dict(name, verdict, ...)
         self.witnesses = []        # reachability twins
         self.violations = []       # replayed, not known
@@ -214,6 +218,8 @@ class Check:
         distinct = len(set(o["name"] for o in self.obligations))
         for dis in Z.CROSS["disagree"][:3]:
             self.harness_error("second solver disagrees: %s -- z3 says %s, cvc5 says %s" % (dis["name"], dis["z3"], dis["cvc5"]))
+        if Z.BUDGET["skipped"]:
+            self.harness_error("wall-clock budget of %d s spent: %d solver queries were not attempted (answered unknown)" % (Z.BUDGET["seconds"], Z.BUDGET["skipped"]))
         from symnum import npproxy as _npp
         for which, c in sorted(_npp.CAP_CUTS):
             self.assume("numpy.%s(x, %g) with a symbolic x is taken as x: the claims are restricted to x %s %g (for the Bose argument "
